@@ -260,6 +260,8 @@ pub struct World {
     /// Set when more than 20 000 iterations were needed to settle one instant: packets keep
     /// causing packets without virtual time passing (description with the last log lines).
     pub storm: Option<String>,
+    /// IPv4 multicasts that left on another interface than the caller meant (shared-socket selection)
+    pub misrouted: u64,
 }
 
 pub fn v4(name: &str, index: u32, ip: &str, prefix: u8) -> SimIntf {
@@ -291,6 +293,7 @@ impl World {
             links: Vec::new(),
             loopback: std::env::var("VERIF_LOOPBACK").is_ok_and(|v| v == "1"),
             storm: None,
+            misrouted: 0,
             release_when_blocked: false,
             trace: std::env::var("VERIF_TRACE").is_ok(),
             steps: 0,
@@ -452,7 +455,22 @@ impl World {
     }
 
     fn collect_egress(&mut self, d: usize) -> Vec<OutPkt> {
-        let pk = self.ds[d].ctl.take_egress();
+        let mut pk = self.ds[d].ctl.take_egress();
+        // An IPv4 multicast leaves on the interface selected on the shared socket
+        // (IP_MULTICAST_IF as last set), whatever interface the caller had in mind.
+        let table = self.ds[d].ctl.get_intfs();
+        for p in pk.iter_mut() {
+            if let (true, Some(sel)) = (p.dst.is_ipv4() && p.dst.ip().is_multicast(), p.mcast_if_v4) {
+                if p.src_ip != Some(IpAddr::V4(sel)) {
+                    if let Some(eff) = table.iter().find(|i| i.ip == IpAddr::V4(sel)) {
+                        self.misrouted += 1;
+                        p.if_index = Some(eff.index);
+                        p.if_name = eff.name.clone();
+                        p.src_ip = Some(eff.ip);
+                    }
+                }
+            }
+        }
         for p in pk.iter() {
             let out = Out {
                 if_index: p.if_index,
